@@ -174,6 +174,11 @@ def units(tier):
             return [Obligation(base + "/loop_reached", ctx, False)]
         except capmodel.LoopStepDone as e:
             env = e.env
+        if ctx.ghost.module_writes:
+            # state that outlives the call (a module-level cache): one iteration from the initial module state says nothing about
+            # later iterations or calls -> the lemma does not apply; undecided here, decided by the native stand-in
+            from pyvc.interp import Unsupported
+            raise Unsupported("the loop body writes module-level state: " + str(ctx.ghost.module_writes[:1]))
         obs = [Obligation(base + "/chunks_are_32_characters_of_the_reply_text", ctx,
                           len(seen) == 1 and len(seen[0][0]) >= 2 and seen[0][0][1] == 32 and not seen[0][1]
                           and ip.equals(seen[0][0][0], hex_of_bytes(ip.getslice(r, 45, 61, ctx)), ctx)),
